@@ -53,9 +53,10 @@ def run(plan, acts):
                     ev['rows'] = what.get('rows', [])
                     loader.input('\n'.join(stmts) + '\n')
                 elif act[0] == 'Build':
-                    m = loader.build_metamodel(xtuml.IntegerGenerator())
+                    # with an integer generator of its own, or (every third build) with the generator the loader gives it
+                    m = loader.build_metamodel(xtuml.IntegerGenerator()) if (k + len(worlds)) % 3 else loader.build_metamodel()
                     worlds.append(new_world(plan, m))
-                    ev['g'] = m.id_generator.peek() - 1
+                    ev['g'] = m.id_generator.peek() - 1 if isinstance(m.id_generator, xtuml.IntegerGenerator) else -1
                     if len(act) > 1 and act[1].get('undecl'):
                         ev['undecl'] = act[1]['undecl']
                 elif act[0] == 'Mutate':
@@ -104,6 +105,7 @@ def run(plan, acts):
                     p = w.project()
                     p['schema'] = w.schema_projection()
                     p['oerr'] = ''
+                    p['peek'] = _sql.encode(w.m.id_generator.peek(), 'UNIQUE_ID')
             except Exception as e:
                 p = {'oerr': '%s: %s' % (type(e).__name__, e)}
             projs.append(p)
